@@ -21,6 +21,7 @@ Leaves == {"PushSig", "PushConst"}
 AllOps == UnOps \cup BinOps \cup Leaves \cup SeqOps \cup {"Mux", "ArrayIndex"}
 ConstOps == {"PushConst", "Cat", "Slice", "Index", "SliceStep", "Replicate", "RotateLeft", "RotateRight"}
 (* a choice operator whose selector or branch is the result of one reinterpreting / complementing operator *)
+ChoiceOpsS == Leaves \cup {"AsSigned", "AsUnsigned", "ArrayIndexS"}
 ChoiceOps == Leaves \cup {"Inv", "Neg", "AsSigned", "AsUnsigned", "ShiftRight", "Mux", "ArrayIndex"}
 TernOps ==Leaves \cup {"Mux", "ArrayIndex", "Cat"}
 Amts == {-5, -1, 0, 1, 2, 5}
